@@ -1076,6 +1076,9 @@ def run(ctx):
     for i, clause in rej.items():
         report_trace(ctx, byid[i], clause)
     nskip = len(skips)
+    # growth beyond the listed properties: course-wide registered defaults (docs/plugins.md); disagreements are drift
+    from engine.adapters import defaults
+    defaults.run_part(ctx)
     ctx.extra['doc_conflict'] = DOC_CONFLICTS
     ctx.extra['undecided_by_documentation'] = {
         'count': nskip, 'accepted_by_code': sorted(k for k, v in skips.items() if v == 'accept')[:400],
